@@ -61,7 +61,7 @@ theorem step_not_spin (c : Chan) (ev : Ev) : step c ev ≠ .error .spin := by
     split
     · rename_i h1
       split at h1
-      · obtain ⟨r, hr⟩ := flushSend_some { c with sendState := .closePending }
+      · obtain ⟨r, hr⟩ := flushSend_some { c with sendEofPending := decide (c.sendState = .eofPending), sendState := .closePending }
         rw [hr] at h1; cases h1
       · cases h1
     · split <;> simp
@@ -172,6 +172,27 @@ theorem flushData_types (wt : List Nat) : ∀ (fuel : Nat) (c c' : Chan) (ms : L
             exact hok (buf, dt) (by simp)
           · exact bufOK_nil _
 
+theorem flushTail_data (c : Chan) :
+    dataOf (flushTail c).2 = [] ∧ ((flushTail c).1.sendBuf = c.sendBuf ∨ (flushTail c).1.sendBuf = []) := by
+  unfold flushTail
+  split
+  · split
+    · exact ⟨by unfold sendPkt; split <;> rfl, Or.inl rfl⟩
+    · refine ⟨?_, Or.inr ?_⟩
+      · rw [dataOf_append]
+        have h1 : dataOf (if c.sendEofPending = true then sendPkt c Msg.eof else []) = [] := by
+          split
+          · unfold sendPkt; split <;> rfl
+          · rfl
+        have h2 : dataOf (closeSend { c with sendEofPending := false }).2 = [] := by
+          unfold closeSend; split
+          · unfold sendPkt; split <;> rfl
+          · rfl
+        rw [h1, h2]; rfl
+      · unfold closeSend; split <;> rfl
+    · exact ⟨rfl, Or.inl rfl⟩
+  · exact ⟨rfl, Or.inl rfl⟩
+
 theorem flushSend_types (wt : List Nat) (c c' : Chan) (ms : List Msg)
     (h : flushSend c = some (c', ms)) (hok : bufOK wt c.sendBuf) : bufOK wt c'.sendBuf ∧ bufOK wt (dataOf ms) := by
   unfold flushSend at h
@@ -181,18 +202,12 @@ theorem flushSend_types (wt : List Nat) (c c' : Chan) (ms : List Msg)
     simp only [Option.some.injEq, Prod.mk.injEq] at h
     obtain ⟨rfl, rfl⟩ := h
     obtain ⟨h1, h2⟩ := flushData_types wt _ _ _ _ hok hfd
-    rw [dataOf_append]
-    unfold flushTail
-    split
-    · rename_i hb
-      split
-      · exact ⟨by simpa [hb] using bufOK_nil wt, by unfold sendPkt; split <;> simpa [dataOf] using h2⟩
-      · unfold closeSend
-        split
-        · exact ⟨bufOK_nil _, by unfold sendPkt; split <;> simpa [dataOf] using h2⟩
-        · exact ⟨bufOK_nil _, by simpa [dataOf] using h2⟩
-      · exact ⟨h1, by simpa [dataOf] using h2⟩
-    · exact ⟨h1, by simpa [dataOf] using h2⟩
+    obtain ⟨h3, h4⟩ := flushTail_data c1
+    rw [dataOf_append, h3, List.append_nil]
+    refine ⟨?_, h2⟩
+    rcases h4 with h4 | h4
+    · rw [h4]; exact h1
+    · rw [h4]; exact bufOK_nil _
 
 theorem flushRecv_types (wt : List Nat) (c c' : Chan) (ms : List Msg) (os : List Out)
     (h : flushRecv c = some (c', ms, os)) (hok : bufOK wt c.sendBuf) : bufOK wt c'.sendBuf ∧ bufOK wt (dataOf ms) := by
